@@ -15,3 +15,18 @@ Theorem C02_unfixed_refuted_raise : dec_unfixed [224; 1] = Raise IndexError.
 Proof. exact exact_unfixed_refuted_raise. Qed.
 Theorem C02_unfixed_refuted_accept : exists m, dec_unfixed [224; 1; 2; 3] = Ok m /\ enc m <> [224; 1; 2; 3].
 Proof. exact exact_unfixed_refuted_accept. Qed.
+
+(* the type clause, over ALL sequences of arbitrary items (integers, booleans, floats, strings, None, any other object): a message is
+   returned only when every item is an integer (bool counts) and the integers are exactly the encoding of that message; a sequence with
+   an item that is not an integer raises TypeError; nothing but ValueError and TypeError is ever raised *)
+Require Import Mido.Model.Checks Mido.Proofs.ChecksProofs.
+Theorem C02_types : forall items,
+  match dec_items items with
+  | Ok m => exists zs, atoms_ints items = Some zs /\ valid m = true /\ enc m = zs
+  | Raise e => e = ValueError \/ (e = TypeError /\ atoms_ints items = None)
+  end.
+Proof. exact dec_items_spec. Qed.
+Print Assumptions C02_types.
+Theorem C02_non_integer : forall items, items <> [] -> atoms_ints items = None -> dec_items items = Raise TypeError.
+Proof. exact dec_items_non_integer. Qed.
+Print Assumptions C02_non_integer.
